@@ -90,12 +90,20 @@ def run_roles(prog, rep):
     return rule
 
 
+def _cond_text(assign):
+    parts = []
+    for k, v in sorted(assign.items(), key=repr):
+        parts.append(('' if v else '!') + repr(k)[:80])
+    return ' && '.join(parts)[:240] or 'always'
+
+
 def run_paths(prog, rep):
     """DataArrayHDF5::read and ::write are mirror images"""
     rule = rep.rule('R-IOPATH', 'DataArrayHDF5::read/write select the same region, use the same memory type and marshal strings symmetrically', floor=1)
     rd = prog.fn('nix::hdf5::DataArrayHDF5::read')
     wr = prog.fn('nix::hdf5::DataArrayHDF5::write')
     rows = {}
+    silent = []
     for f, sink, helper in ((rd, 'read', 'StringWriter'), (wr, 'write', 'StringReader')):
         for is_str in (True, False):
             def conc(interp, n, env, is_str=is_str):
@@ -105,11 +113,13 @@ def run_paths(prog, rep):
             for assign, out, log, fields in res:
                 if out[0] != 'ret':
                     continue
+                if not [l for l in log if l[0] == sink]:
+                    silent.append('%s: a path returns normally without any data set %s (taken when %s)' % (sink, sink, _cond_text(assign)))
                 strk = [v for k, v in assign.items() if k[0] == 'cmp' and k[1] == '==' and contains(k, ('e', 'nix::DataType::String'))]
                 if not strk:
                     continue
                 rows[(sink, strk[0])] = log
-    probs = []
+    probs = list(silent)
     for sink in ('read', 'write'):
         for s in (True, False):
             log = rows.get((sink, s))
